@@ -10,6 +10,9 @@ C  Shape / Indent arithmetic never overflows (dev profile panics) for indent_wid
    and ANY column_width including usize::MAX
 D  the simple_heuristics guard that bounds nested trial formatting of call arguments: no trial formatting under the flag, and every
    trial formatting sets it
+G  the guard in front of block_contains_nested_function (is_block_simple) accepts no statement kind that reaches its unreachable!()
+F  the shape prefix_remove_leading_newlines assumes of a FORMATTED prefix (Prefix::Expression holds Parentheses) is re-established by
+   format_prefix on every layout path
 E  --verify number normalisation (verify_ast::visit_number): for every number token of the tokenizer's language (z3 sequence theory)
    neither an unreachable!() nor the `[2..]` slice panics
 """
@@ -38,7 +41,7 @@ PRECONDITIONS = [
      "callers pass only statements accepted by the collapse guard (assignment, local assignment, call, goto)"),
     (r"^format_stmt_no_trivia$", r"FormatNode::None", {"FormatNode": {"Skip", "NotInRange"}},
      "callers collapse a block only when it carries no comments and lies inside the outer statement's range"),
-    (r"^block_contains_nested_function$", r"", {"Stmt": ALL}, "callee-result dependent (is_block_simple precondition)"),
+    (r"^block_contains_nested_function$", r"", {"Stmt": ALL}, "guarded by is_block_simple: decided by kernel G (collapse_guard_covers)"),
     (r"^format_field$", r"", {"FormatNode": {"NotInRange"}}, "fields are never range-tested on their own (should_format_node on a field returns Normal or Skip)"),
     (r"^format_generic_parameter$", r"", {}, "default type present iff `=` present (parser contract)"),
     (r"^format_if$", r"", {}, "else token present iff else block present; a collapsed guard has exactly one statement"),
@@ -414,6 +417,196 @@ def deep_nesting_time():
     return worst, wsrc
 
 
+def _stmt_hook(ex, stmt):
+    """the block's single statement: every `stmts().next()` / `.unwrap()` hands out the same arbitrary Stmt"""
+    from ..summaries import opt_some
+
+    def h(ex_, st, callee, args, dty):
+        if re.search(r"as Iterator>::next$", canon(callee)) and re.fullmatch(r"(std::option::)?Option<&(\w+::)*Stmt>", dty.strip()):
+            return opt_some(dty, RefV(stmt))
+        return NotImplemented
+    return h
+
+
+def collapse_guard_covers(ses, rep, fs):
+    """G: block_contains_nested_function panics on statement kinds it does not list; its caller guards it with is_block_simple.
+    Decided: (a) should_collapse_function_body calls it only after is_block_simple returned true for the same block;
+    (b) no statement kind for which is_block_simple can return true reaches the panic."""
+    flagged = []
+    kinds = {}
+    for fname, want in (("is_block_simple", "accept"), ("block_contains_nested_function", "panic"), ("format_stmt_no_trivia", "panic:format_stmt_no_trivia")):
+        ex = ses.executor("lib", fs, inline=lambda n, fn: False)
+        ex.max_block_visits = 2
+        stmt = ex.fresh_lazy("Stmt", "stmt")
+        ex.hooks = [_stmt_hook(ex, stmt)]
+        fn = ses.need(ex, fname)
+        outs = ex.run(fn, [RefV(stmt) if re.fullmatch(r"&(\w+::)*Stmt", t_) else a_ for (p_, t_), a_ in zip(fn.params, lazy_args(ex, fn))])
+        d = ex.discr(None, stmt)
+        vs = ex.enums.variants("Stmt")
+        got = set()
+        for o in outs:
+            if want == "accept" and o.kind == "return" and isinstance(o.value, Sym):
+                cond = list(o.pc) + [o.value.t if z3.is_bool(o.value.t) else o.value.t != 0]
+            elif want.startswith("panic") and o.kind == "panic" and ("unreachable" in str(o.value) or "node !=" in str(o.value) or want == "panic"):
+                cond = list(o.pc)
+            else:
+                continue
+            for i, v in enumerate(vs):
+                if v[0] not in got and ses.check(cond + [d == z3.BitVecVal(i, 64)], 10)[0] != "unsat":
+                    got.add(v[0])
+        kinds[want] = got
+    if not kinds["accept"]:
+        raise Inconclusive("is_block_simple: no statement kind is accepted (kernel G lost its subject)")
+    for k in sorted(kinds["accept"]):
+        for key, gfn in (("panic", "block_contains_nested_function"), ("panic:format_stmt_no_trivia", "format_stmt_no_trivia")):
+            oid = f"collapse-guard/{fs}/is_block_simple-accepts-{k}/handled-by-{gfn}"
+            r, m = ses.obligation(oid, [], z3.BoolVal(k in kinds[key]), f"a statement kind accepted by is_block_simple does not reach the unreachable!() of {gfn}")
+            if r == "sat":
+                flagged.append((oid, f"is_block_simple accepts a block whose statement is Stmt::{k}, on which {gfn} panics",
+                                "panic-site", {"function": gfn, "featureset": fs, "kinds": {"Stmt": [k]}}))
+    # (a) the guard is in front of the call
+    ex = ses.executor("lib", fs, inline=lambda n, fn: False)
+    fn = ses.need(ex, "should_collapse_function_body")
+    outs = ex.run(fn, lazy_args(ex, fn))
+    n = 0
+    for pi, o in enumerate(outs):
+        bc = find_calls(o.trace, lambda x: x.split("::")[-1] == "block_contains_nested_function")
+        if not bc:
+            continue
+        n += 1
+        g = [c for c in find_calls(o.trace, lambda x: x.split("::")[-1] == "is_block_simple")
+             if repr(deref_val(ex, o.state, c[1][0])) == repr(deref_val(ex, o.state, bc[0][1][0]))]
+        bad = z3.BoolVal(True) if not g or not isinstance(g[0][2], Sym) else z3.Not(g[0][2].t)
+        oid = f"collapse-guard/{fs}/should_collapse_function_body/path{pi}/guarded-by-is_block_simple"
+        r, m = ses.obligation(oid, list(o.pc), bad, "block_contains_nested_function is called only for a block is_block_simple accepted")
+        if r == "sat":
+            flagged.append((oid, "should_collapse_function_body calls block_contains_nested_function on a block is_block_simple did not accept",
+                            "panic-site", {"function": "block_contains_nested_function", "featureset": fs, "kinds": {}}))
+    if n == 0:
+        raise Inconclusive("should_collapse_function_body: no path calls block_contains_nested_function")
+    rep.extra.setdefault("collapse_guard", {})[fs] = {k: sorted(v) for k, v in kinds.items()}
+    return flagged
+
+
+def mk_variant(ex, ety, variant, label):
+    """a node of the given kind whose children are arbitrary"""
+    ent = next(v for v in ex.enums.variants(ety) if v[0] == variant)
+    fields = []
+    for fname, fty in ent[2]:
+        m = re.match(r"^Box<(.*)>$", fty)
+        fields.append(RefV(ex.fresh_lazy(m.group(1), f"{label}.{fname}")) if m else ex.fresh_lazy(fty, f"{label}.{fname}"))
+    return Agg(ety, variant, fields, [f[0] for f in ent[2]] if ent[1] == "named" else None)
+
+
+def prefix_stays_parenthesised(ses, rep, fs):
+    """F: block.rs::prefix_remove_leading_newlines (run on the FORMATTED first statement of every block) panics on a
+    Prefix::Expression that does not hold Expression::Parentheses. The parser guarantees that shape for the input; this kernel
+    decides that format_prefix re-establishes it for its output, on every layout path:
+    (a) format_prefix wraps the result of an in-crate expression formatter called with (the prefix's expression, ExpressionContext::Prefix);
+    (b) each such formatter, run on an arbitrary Expression::Parentheses under ExpressionContext::Prefix, returns Expression::Parentheses."""
+    flagged = []
+    ex = ses.executor("lib", fs, inline=lambda n, fn: False)
+    ex.max_block_visits = 2
+    fn = ses.need(ex, "format_prefix")
+    inner = mk_variant(ex, "Expression", "Parentheses", "paren")
+    prefix = Agg("Prefix", "Expression", [RefV(inner)])
+    args = []
+    for p_, t_ in fn.params:
+        if re.fullmatch(r"&(\w+::)*Prefix", t_):
+            args.append(RefV(prefix))
+        elif t_.startswith("&"):
+            args.append(RefV(ex.fresh_lazy(t_.lstrip("&"), p_)))
+        else:
+            args.append(ex.fresh_lazy(t_, p_))
+    outs = ex.run(fn, args)
+    producers = set()
+    n = 0
+    for pi, o in enumerate(outs):
+        if o.kind != "return":
+            continue
+        n += 1
+        v = deref_val(ex, o.state, o.value)
+        ok, shown = False, repr(v)[:60]
+        if isinstance(v, Agg) and v.variant == "Expression":
+            e = deref_val(ex, o.state, v.fields[0])
+            shown = repr(e)[:60]
+            hc = ex.havoc_calls.get(e.oid) if isinstance(e, Lazy) else None
+            if hc and ex.resolve(hc[0]) is not None:
+                vals = [deref_val(ex, o.state, a_) for a_ in ex.havoc_snap.get(e.oid, hc[1])]
+                has_ctx = any(isinstance(a_, Agg) and a_.variant == "Prefix" and "ExpressionContext" in (a_.ty or "") for a_ in vals)
+                has_expr = any(a_ is inner for a_ in vals)
+                ok = has_ctx and has_expr
+                shown = f"{hc[0]}(.., context={'Prefix' if has_ctx else 'other'})"
+                if ok:
+                    producers.add(hc[0])
+            elif isinstance(e, Agg) and e.variant == "Parentheses":
+                ok = True
+        oid = f"prefix-shape/{fs}/format_prefix/path{pi}/wraps-a-prefix-context-formatter"
+        r, m = ses.obligation(oid, list(o.pc), z3.BoolVal(not ok), "the formatted prefix is what an expression formatter returns for (expression, Prefix)")
+        if r == "sat":
+            flagged.append((oid, f"format_prefix returns a Prefix::Expression holding {shown}", "prefix-shape", {"featureset": fs}))
+    if n == 0:
+        raise Inconclusive("format_prefix: no returning path for a parenthesised prefix")
+    want = z3.BitVecVal(ex.enums.index("Expression", "Parentheses"), 64)
+    for prod in sorted(producers):
+        ex2 = ses.executor("lib", fs, inline=lambda n_, fn_: False)
+        ex2.max_block_visits = 2
+        g = ex2.resolve(prod)
+        rep.fn(g)
+        node = mk_variant(ex2, "Expression", "Parentheses", "paren")
+        args = []
+        for p_, t_ in g.params:
+            if re.fullmatch(r"&(\w+::)*Expression", t_):
+                args.append(RefV(node))
+            elif re.fullmatch(r"(\w+::)*ExpressionContext", t_):
+                args.append(Agg("ExpressionContext", "Prefix", []))
+            elif t_.startswith("&"):
+                args.append(RefV(ex2.fresh_lazy(t_.lstrip("&"), p_)))
+            else:
+                args.append(ex2.fresh_lazy(t_, p_))
+        outs2 = ex2.run(g, args)
+        m_ = 0
+        for pi, o in enumerate(outs2):
+            if o.kind != "return":
+                continue
+            m_ += 1
+            e = deref_val(ex2, o.state, o.value)
+            if isinstance(e, Agg):
+                bad = z3.BoolVal(e.variant != "Parentheses")
+            elif isinstance(e, Lazy):
+                bad = ex2.discr(o.state, e) != want
+            else:
+                bad = z3.BoolVal(True)
+            oid = f"prefix-shape/{fs}/{canon(prod)}/path{pi}/parentheses-stay-under-Prefix-context"
+            r, m = ses.obligation(oid, list(o.pc), bad, "a parenthesised expression formatted under ExpressionContext::Prefix is still Expression::Parentheses")
+            if r == "sat":
+                flagged.append((oid, f"{canon(prod)} can return {repr(e)[:60]} for a parenthesised expression under ExpressionContext::Prefix, on which "
+                                     "prefix_remove_leading_newlines panics", "prefix-shape", {"featureset": fs}))
+        if m_ == 0:
+            raise Inconclusive(f"{prod}: no returning path")
+    return flagged
+
+
+PREFIX_PROGRAMS = ["(obj):update()\n", "function f()\n\t(obj):update()\nend\n", "if x then\n\t(state).count = 0\nend\n", "(handler)(signal)\n",
+                   '("x"):rep(2)\n', "(function() end)()\n", "do\n\t(a or b)(c)\nend\n", "({}).x = 1\n", "(a.b):c()\n", "(f()).x = 1\n", "(...)(1)\n"]
+
+
+def replay_prefix_shape(fs):
+    binp = common.native_build("full" if fs == "full" else "default")
+    for src in PREFIX_PROGRAMS:
+        for fl in ([], ["--column-width", "10"], ["--column-width", "1"]):
+            rc, pan, err = run_src(binp, src, fl)
+            if pan or rc < 0 or rc > 2:
+                return {"source": src, "flags": fl, "panic_at": pan[0] if pan else f"rc {rc}", "message": pan[1] if pan else err[-200:]}
+    return None
+
+
+INVALID = ["local x = = 1\n", "local x = (\n\n\nprint(1", "if a then\n", "x = = 2   \n\n"]
+INVALID_FLAGS = [[], ["--range-start", "0", "--range-end", "0"], ["--range-start", "8", "--range-end", "8"], ["--range-start", "5", "--range-end", "6"],
+                 ["--range-start", "9", "--range-end", "3"], ["--range-start", "900", "--range-end", "1000"], ["--check"], ["--verify"],
+                 ["--range-start", "10", "--range-end", "13"]]
+
+
 def run(ses, rep):
     from . import c14
     rep.assumptions += ["enum discriminants are valid variants of the feature set (rustc's own UnreachableEnumBranching already removed exhaustive wildcard arms)",
@@ -435,6 +628,12 @@ def run(ses, rep):
     # B
     for fs in ("default", "full"):
         flagged += census(ses, rep, fs)
+    # G
+    for fs in ("default", "full"):
+        flagged += collapse_guard_covers(ses, rep, fs)
+    # F
+    for fs in ("default", "full"):
+        flagged += prefix_stays_parenthesised(ses, rep, fs)
     rep.samples.append({"flagged": [(f[0], f[1]) for f in flagged][:8]})
     if not flagged:
         return
@@ -461,6 +660,13 @@ def run(ses, rep):
                 rep.add(oid, st, f"{what}: {hit[0]['program']} {hit[0]['flags']} panicked at {hit[0]['panic_at']}")
             else:
                 rep.add(oid, "inconclusive", f"{what}: no program of the corpus panics in {sf}")
+        elif kind == "prefix-shape":
+            hit = replay_prefix_shape(info["featureset"])
+            if hit:
+                st = rep.violation({"obligation": "prefix-shape"}, {"what": what, **hit})
+                rep.add(oid, st, f"{what}: {hit['source']!r} {hit['flags']} panicked at {hit['panic_at']}")
+            else:
+                rep.add(oid, "inconclusive", f"{what}: no parenthesised-prefix program panics on the native build")
         elif kind == "heuristics":
             t, src = deep_nesting_time()
             if t > 8.0:
@@ -470,10 +676,15 @@ def run(ses, rep):
                 rep.add(oid, "inconclusive", f"{what}: the nested-call programs are formatted in at most {t:.2f}s")
         elif kind == "parse-error":
             binp = common.native_build("default")
-            rc, pan, err = run_src(binp, "local x = = 1\n", [])
-            if rc == 0:
-                st = rep.violation({"obligation": "parse-error"}, {"what": what, "source": "local x = = 1\n", "rc": rc})
-                rep.add(oid, st, what)
+            hit = None
+            for src in INVALID:
+                for fl in INVALID_FLAGS:
+                    rc, pan, err = run_src(binp, src, fl)
+                    if rc == 0 and hit is None:
+                        hit = (src, fl)
+            if hit:
+                st = rep.violation({"obligation": "parse-error"}, {"what": what, "source": hit[0], "flags": hit[1], "rc": 0, "expect": "error"})
+                rep.add(oid, st, f"{what}: {hit[0]!r} {hit[1]} is accepted (rc 0)")
             else:
                 rep.add(oid, "inconclusive", f"{what}: unparseable input is rejected by the native build")
         else:
@@ -488,7 +699,7 @@ def replay(path):
         binp = common.native_build("full")
         rc, pan, err = run_src(binp, r["source"], r["flags"])
         print("rc", rc, "panic", pan)
-        if pan:
+        if pan or (r.get("expect") == "error" and rc == 0):
             print(f"VIOLATION property=C07 replay={path}")
             return 1
     return 0
